@@ -66,6 +66,9 @@ type Exec struct {
 	allowPanic string // SMT condition under which a panic is allowed (evaluated in pre-state)
 	inlineStack []string
 	retObjs  []types.Object
+	assuming     bool
+	openCaptured bool
+	litPos       token.Pos
 }
 
 func (x *Exec) noteAssume(s string) {
@@ -366,6 +369,7 @@ func (x *Exec) slen(h Term) Term {
 
 func (x *Exec) newSlice(st *State, n Term, es Sort, arr *Term) Term {
 	h := x.fresh("sl", SInt)
+	st.names["$fresh:"+h.S] = true
 	st.assume("(> " + h.S + " 0)")
 	st.assume("(= " + x.slen(h).S + " " + n.S + ")")
 	if arr != nil {
@@ -511,6 +515,20 @@ func (x *Exec) evalT(e ast.Expr, st *State) Term {
 	return asTerm(v)
 }
 
+// evalGuarded evaluates e under the extra assumption g (for obligations raised inside e);
+// assumptions that the evaluation itself adds (callee postconditions) are kept, guarded by g.
+func (x *Exec) evalGuarded(e ast.Expr, st *State, g string) string {
+	n := len(st.pc)
+	st.pc = append(st.pc, g)
+	b := x.evalBool(e, st)
+	added := append([]string(nil), st.pc[n+1:]...)
+	st.pc = st.pc[:n]
+	for _, a := range added {
+		st.assume(implies(g, a))
+	}
+	return b
+}
+
 func (x *Exec) evalBool(e ast.Expr, st *State) string {
 	t := x.evalT(e, st)
 	if t.Sort != SBool {
@@ -622,6 +640,16 @@ func (x *Exec) evalIdent(e *ast.Ident, st *State) (Value, types.Type) {
 		if o := x.pkg.Types.Scope().Lookup(e.Name); o != nil {
 			return x.evalObject(o, st)
 		}
+		// a variable captured by the literal under verification
+		if x.openCaptured && x.litPos.IsValid() {
+			if sc := x.pkg.Types.Scope().Innermost(x.litPos); sc != nil {
+				if _, o := sc.LookupParent(e.Name, x.litPos); o != nil {
+					if _, isVar := o.(*types.Var); isVar {
+						return x.evalObject(o, st)
+					}
+				}
+			}
+		}
 		// spec constant (0-ary)
 		if sig, ok := x.L.specs[e.Name]; ok && len(sig.Args) == 0 {
 			return Term{e.Name, sig.Res}, nil
@@ -648,6 +676,24 @@ func (x *Exec) evalObject(o types.Object, st *State) (Value, types.Type) {
 			s := x.sortOf(o.Type())
 			v := x.heapGet(st, globalKey(o), s)
 			x.tableAssume(st, o, v)
+			return v, o.Type()
+		}
+		if x.openCaptured {
+			// a variable captured by the literal under verification: arbitrary value of its type
+			var v Value
+			if x.isLocStruct(o.Type()) {
+				r := x.declConst("cap_"+o.Name(), SInt)
+				x.declare("(assert (> "+r.S+" 0))", "cap_pos_"+o.Name())
+				v = r
+			} else {
+				t := x.declConst("cap_"+o.Name(), x.sortOf(o.Type()))
+				x.rangeAssume(st, t, o.Type())
+				v = t
+			}
+			st.env[o] = v
+			if st.old != nil {
+				st.old.env[o] = v
+			}
 			return v, o.Type()
 		}
 		engineFail("variable %s has no value in the symbolic store (captured before definition?)", o.Name())
@@ -767,7 +813,7 @@ func (x *Exec) walkFields(st *State, cur Term, t types.Type, path []int, at ast.
 }
 
 func (x *Exec) safety(st *State, kind string, at ast.Expr, cond string) {
-	if x.contract {
+	if x.contract || (x.con != nil && x.con.Opts["safety"] == "off") {
 		return
 	}
 	if x.allowPanic != "" {
@@ -841,18 +887,11 @@ func (x *Exec) evalBinary(e *ast.BinaryExpr, st *State) (Value, types.Type) {
 	switch e.Op {
 	case token.LAND:
 		a := x.evalBool(e.X, st)
-		st2 := st
-		n := len(st.pc)
-		st2.pc = append(st2.pc, a)
-		b := x.evalBool(e.Y, st2)
-		st.pc = st.pc[:n]
+		b := x.evalGuarded(e.Y, st, a)
 		return Term{and(a, b), SBool}, types.Typ[types.Bool]
 	case token.LOR:
 		a := x.evalBool(e.X, st)
-		n := len(st.pc)
-		st.pc = append(st.pc, not(a))
-		b := x.evalBool(e.Y, st)
-		st.pc = st.pc[:n]
+		b := x.evalGuarded(e.Y, st, not(a))
 		return Term{or(a, b), SBool}, types.Typ[types.Bool]
 	}
 	lv, lt := x.eval(e.X, st)
